@@ -279,6 +279,24 @@ pub struct UniOmega {
     pub o: String,
 }
 
+// documentation that quotes the declaration of a sibling in the same file
+/// The unit; see `export type QuoteMetres = number;` and export type QuoteMetre<T> = T;
+#[derive(TS)]
+#[ts(export_to = "m/quote.ts")]
+pub struct QuoteDistance {
+    pub d: u32,
+}
+#[derive(TS)]
+#[ts(export_to = "m/quote.ts")]
+pub struct QuoteMetre {
+    pub m: u32,
+}
+#[derive(TS)]
+#[ts(export_to = "m/quote.ts")]
+pub struct QuoteMetres {
+    pub ms: Vec<u32>,
+}
+
 pub fn registry() -> Vec<TypeEntry> {
     vec![
         TypeEntry::serde::<UA>("UA", "UA"),
@@ -323,6 +341,9 @@ pub fn registry() -> Vec<TypeEntry> {
         TypeEntry::ts::<UniBeta>("UniBeta", "UniBeta"),
         TypeEntry::ts::<UniGamma>("UniGamma", "UniGamma"),
         TypeEntry::ts::<UniOmega>("UniOmega", "UniOmega"),
+        TypeEntry::ts::<QuoteDistance>("QuoteDistance", "QuoteDistance"),
+        TypeEntry::ts::<QuoteMetre>("QuoteMetre", "QuoteMetre"),
+        TypeEntry::ts::<QuoteMetres>("QuoteMetres", "QuoteMetres"),
         // not exportable roots
         TypeEntry::ts::<i32>("prim:i32", "i32"),
         TypeEntry::ts::<Vec<UA>>("prim:Vec<UA>", "Vec<UA>"),
